@@ -500,6 +500,13 @@ class CircleMonitor(object):
             return
         if str(res.seq) != want:
             ctx.violation("slice-text", "record[%r:%r:%r] has text %r, the string slice is %r" % (index.start, index.stop, index.step, str(res.seq)[:60], want[:60]), **wit)
+        for track, values in rec.letter_annotations.items():
+            ctx.count("getitem_slice_tracks_checked")
+            got = res.letter_annotations.get(track)
+            if got is None or list(got) != list(values[index]):
+                ctx.violation("slice-letter-annotations", "record[%r:%r:%r]: per-letter track %r of the slice is %r, not the same slice of the record's track" % (
+                    index.start, index.stop, index.step, track, None if got is None else list(got)[:8]), **wit)
+                break
         topo = res.annotations.get("topology")
         if isinstance(topo, str) and topo.lower() == "circular":
             ctx.violation("slice-claims-circular", "record[%r:%r:%r] carries topology=%r" % (index.start, index.stop, index.step, topo), **wit)
